@@ -414,7 +414,9 @@ func coreOp(rng *rand.Rand, u *model.Universe, w *world, m, from, to string) *mo
 	case "GetBlob", "ResolveBlob", "DeleteBlob":
 		return &model.Op{Kind: m, Repo: to, Digest: d}
 	case "GetBlobRange":
-		return &model.Op{Kind: m, Repo: to, Digest: d, O0: 1, O1: 4}
+		// also the ranges an implementation is tempted to treat as "the whole blob"
+		o := [][2]int64{{1, 4}, {0, -1}, {0, 0}, {2, -1}, {0, int64(len(b))}}[rng.IntN(5)]
+		return &model.Op{Kind: m, Repo: to, Digest: d, O0: o[0], O1: o[1]}
 	case "GetManifest", "ResolveManifest", "DeleteManifest", "Referrers":
 		return &model.Op{Kind: m, Repo: to, Digest: md}
 	case "GetTag", "ResolveTag", "DeleteTag":
@@ -425,9 +427,10 @@ func coreOp(rng *rand.Rand, u *model.Universe, w *world, m, from, to string) *mo
 	case "PushBlobChunked":
 		return &model.Op{Kind: m, Repo: to, Hint: 0}
 	case "PushBlobChunkedResume":
-		return &model.Op{Kind: m, Repo: to, IDLit: "some-upload-id", Offset: 0, H: -1}
+		// also the empty id, which lenient registries take as "start a new upload"
+		return &model.Op{Kind: m, Repo: to, IDLit: []string{"some-upload-id", model.EmptyID, "/some/id"}[rng.IntN(3)], Offset: int64(rng.IntN(2) * 3), H: -1}
 	case "PushBlobChunkedResume(-1)":
-		return &model.Op{Kind: "PushBlobChunkedResume", Repo: to, IDLit: "some-upload-id", Offset: -1, H: -1}
+		return &model.Op{Kind: "PushBlobChunkedResume", Repo: to, IDLit: []string{"some-upload-id", model.EmptyID}[rng.IntN(2)], Offset: -1, H: -1}
 	case "MountBlob":
 		return &model.Op{Kind: m, From: from, Repo: to, Digest: d}
 	case "PushManifest":
